@@ -68,6 +68,17 @@ def extra_entries():
     add('GLU', lambda: T.GatedLinearUnit(), [3], ctx=1)
     add('Composite', lambda: T.CompositeTransform([T.LULinear(3, identity_init=False), T.Tanh(), T.ReversePermutation(3),
                                                    T.PointwiseAffineTransform(0.5, 2.0)]), [3])
+    # usage patterns of the wrappers: parts given as a one-shot iterable; one instance listed more than once (weight tying)
+    add('CompositeFromGenerator', lambda: T.CompositeTransform(t for t in [T.LULinear(3, identity_init=False), T.Tanh(), T.ReversePermutation(3),
+                                                                           T.PointwiseAffineTransform(0.5, 2.0)]), [3])
+    add('CompositeFromIterator', lambda: T.CompositeTransform(iter([T.LULinear(3, identity_init=False), T.LeakyReLU(), T.RandomPermutation(3)])), [3])
+    def tied():
+        a, l, p = T.PointwiseAffineTransform(0.25, 1.5), T.LULinear(3, identity_init=False), T.RandomPermutation(3)
+        return T.CompositeTransform([l, a, p, l, a, p, T.LeakyReLU()])
+    add('CompositeTiedParts', tied, [3])
+    # integer-valued constructor arguments
+    add('PointwiseAffine/int', lambda: T.PointwiseAffineTransform(shift=1, scale=2), [3])
+    add('PointwiseAffine/int-tensor', lambda: T.PointwiseAffineTransform(shift=torch.tensor([1, 0, -2]), scale=torch.tensor([2, 3, -4])), [3])
     add('InverseTransform', lambda: T.InverseTransform(T.CompositeTransform([T.LULinear(3, identity_init=False), T.LeakyReLU()])), [3])
     add('CompositeCDF', lambda: T.CompositeCDFTransform(T.Sigmoid(), T.PiecewiseRationalQuadraticCDF([2], num_bins=3)), [2])
 
@@ -104,6 +115,34 @@ def all_entries(level):
     return R.entries(level) + extra_entries()
 
 
+MODES = ('grad', 'no_grad', 'noncontiguous', 'reloaded')
+
+
+def _mode_setup(mode, e, t, x, gen):
+    """-> (transform, inputs) for a usage mode: 'reloaded' = a second instance built under another seed that loaded the first one's
+    state dict (same function by C15, so every law must hold for it too); 'noncontiguous' = same values, dense non-contiguous layout"""
+    if mode == 'reloaded':
+        from .tcorr import build
+        t2 = build(e, gen, x.dtype, 'fresh')
+        if not list(t.state_dict()):
+            return None, None
+        t2.load_state_dict(t.state_dict())
+        t2.train(t.training)
+        return t2, x
+    if mode == 'noncontiguous':
+        from .tcorr import noncontiguous
+        xn = noncontiguous(x)
+        return (t, xn) if xn is not None else (None, None)
+    return t, x
+
+
+def _call(mode, t, x, c, inverse):
+    if mode == 'no_grad':
+        with torch.no_grad():
+            return R.impl_call(t, x, c, inverse)
+    return R.impl_call(t, x, c, inverse)
+
+
 def _jac_logdet(t, x_row, c_row):
     def f(a):
         y, _ = t(a[None], c_row[None]) if c_row is not None else t(a[None])
@@ -128,26 +167,32 @@ def jacobian_search(ctx, budget_s=300, entries=None, count=False):
                 if e.extra.get('warm_inverse'):
                     with torch.no_grad():
                         t.inverse(torch.randn(2, *e.in_shape, dtype=torch.float64))
-                x = R.make_inputs(e, 2, gen, torch.float64, False)
+                x0 = R.make_inputs(e, 2, gen, torch.float64, False)
                 c = R.make_context(e, 2, gen, torch.float64)
-                kind, y, ld = R.impl_call(t, x, c, False)
-                if count:
-                    ctx.case(key=('direct-jacobian', e.name, regime), branch='direct-jacobian', nontrivial=True, n=int(x.numel()))
-                if kind != 'ok':
-                    ctx.fail('forward raised %s on in-domain inputs' % kind, {'entry': e.name, 'regime': regime},
-                             match={'class': e.name.split('/')[0], 'symptom': 'raises'})
-                    continue
-                for i in range(2):
-                    jl = _jac_logdet(t, x[i], c[i] if c is not None else None)
-                    if jl is None or not math.isfinite(jl):
+                t0 = t
+                for mode in MODES:
+                    t, x = _mode_setup(mode, e, t0, x0, gen)
+                    if t is None:
                         continue
-                    tol = e.extra.get('tol', 1e-6) * (1 + abs(jl))
-                    if abs(jl - ld[i].item()) > tol:
-                        ctx.fail('forward log-abs-det %r but log|det Jacobian| = %r' % (ld[i].item(), jl),
-                                 {'entry': e.name, 'regime': regime, 'x': x[i].reshape(-1).tolist(),
-                                  'context': c[i].reshape(-1).tolist() if c is not None else None},
-                                 match={'class': e.name.split('/')[0], 'symptom': 'logdet!=jacobian'})
-                        break
+                    kind, y, ld = _call(mode, t, x, c, False)
+                    if count:
+                        ctx.case(key=('direct-jacobian', e.name, regime, mode), branch='direct-jacobian/' + mode, nontrivial=True, n=int(x.numel()))
+                    msfx = {} if mode == 'grad' else {'mode': mode}
+                    if kind != 'ok':
+                        ctx.fail('forward raised %s on in-domain inputs%s' % (kind, '' if mode == 'grad' else ' (%s)' % mode), {'entry': e.name, 'regime': regime, 'mode': mode},
+                                 match=dict({'class': e.name.split('/')[0], 'symptom': 'raises'}, **msfx))
+                        continue
+                    for i in range(2):
+                        jl = _jac_logdet(t, x[i], c[i] if c is not None else None)
+                        if jl is None or not math.isfinite(jl):
+                            continue
+                        tol = e.extra.get('tol', 1e-6) * (1 + abs(jl))
+                        if abs(jl - ld[i].item()) > tol:
+                            ctx.fail('forward log-abs-det %r but log|det Jacobian| = %r%s' % (ld[i].item(), jl, '' if mode == 'grad' else ' (%s)' % mode),
+                                     {'entry': e.name, 'regime': regime, 'mode': mode, 'x': x[i].reshape(-1).tolist(),
+                                      'context': c[i].reshape(-1).tolist() if c is not None else None},
+                                     match=dict({'class': e.name.split('/')[0], 'symptom': 'logdet!=jacobian'}, **msfx))
+                            break
             except Exception as ex:
                 ctx.notes.append('jacobian oracle on %s raised %r' % (e.name, ex))
         if len(ctx.failing) >= 8 or ctx.elapsed() > budget_s:
@@ -182,36 +227,42 @@ def roundtrip_search(ctx, budget_s=300, entries=None, count=False):
                 if e.extra.get('warm_inverse'):
                     with torch.no_grad():
                         t.inverse(torch.randn(2, *e.in_shape, dtype=torch.float64))
-                x = R.make_inputs(e, 3, gen, torch.float64, False)
+                x0 = R.make_inputs(e, 3, gen, torch.float64, False)
                 c = R.make_context(e, 3, gen, torch.float64)
-                kind, y, ld = R.impl_call(t, x, c, False)
-                if kind != 'ok':
-                    continue
-                if count:
-                    ctx.case(key=('direct-roundtrip', e.name, regime), branch='direct-roundtrip', nontrivial=True, n=int(x.numel()))
-                k2, xi, ldi = R.impl_call(t, y, c, True)
-                cls = e.name.split('/')[0]
-                case = {'entry': e.name, 'regime': regime, 'x': x.reshape(-1).tolist()[:16]}
-                if k2 != 'ok':
-                    ctx.fail('inverse raised %s on forward outputs' % k2, case, match={'class': cls, 'symptom': 'inverse-raises', 'regime': regime}); continue
-                if not (torch.isfinite(xi).all() and torch.isfinite(ldi).all() and torch.isfinite(y).all() and torch.isfinite(ld).all()):
-                    ctx.fail('non-finite value returned', case, match={'class': cls, 'symptom': 'non-finite', 'regime': regime}); continue
-                # conditioning-scaled tolerance: exp(|ld|) per row + the declared constants
-                kap = torch.exp(ld.abs().clamp(max=30)).reshape(-1, *([1] * (x.dim() - 1)))
-                tol = e.extra.get('tol', 1e-6) * (1 + x.abs()) * kap + _declared(e)
-                if ((xi - x).abs() > tol).any():
-                    ctx.fail('inverse(forward(x)) differs from x by %.3g' % (xi - x).abs().max().item(), case,
-                             match={'class': cls, 'symptom': 'roundtrip', 'regime': regime}); continue
-                # the property: the log-abs-det returned by inverse at y is the negative of the one forward returns AT inverse(y)
-                k3, y2, ld2 = R.impl_call(t, xi, c, False)
-                if k3 != 'ok':
-                    ctx.fail('forward raised %s at inverse(y)' % k3, case, match={'class': cls, 'symptom': 'forward-raises', 'regime': regime}); continue
-                if ((ld2 + ldi).abs() > 1e-5 * (1 + ld2.abs()) * kap.reshape(-1) + 10 * _declared(e)).any():
-                    ctx.fail('inverse log-abs-det is not the negated forward one (%.3g)' % (ld2 + ldi).abs().max().item(), case,
-                             match={'class': cls, 'symptom': 'ld-not-negated', 'regime': regime}); continue
-                if ((y2 - y).abs() > tol.reshape(y.shape) if tol.shape == y.shape else ((y2 - y).abs() > 1e-6 * (1 + y.abs()).max() * kap.max() + _declared(e))).any():
-                    ctx.fail('forward(inverse(y)) differs from y by %.3g' % (y2 - y).abs().max().item(), case,
-                             match={'class': cls, 'symptom': 'roundtrip-fi', 'regime': regime})
+                t0 = t
+                for mode in MODES:
+                    t, x = _mode_setup(mode, e, t0, x0, gen)
+                    if t is None:
+                        continue
+                    msfx = {} if mode == 'grad' else {'mode': mode}
+                    kind, y, ld = _call(mode, t, x, c, False)
+                    if kind != 'ok':
+                        continue
+                    if count:
+                        ctx.case(key=('direct-roundtrip', e.name, regime, mode), branch='direct-roundtrip/' + mode, nontrivial=True, n=int(x.numel()))
+                    k2, xi, ldi = _call(mode, t, y, c, True)
+                    cls = e.name.split('/')[0]
+                    case = {'entry': e.name, 'regime': regime, 'mode': mode, 'x': x.reshape(-1).tolist()[:16]}
+                    if k2 != 'ok':
+                        ctx.fail('inverse raised %s on forward outputs' % k2, case, match={'class': cls, 'symptom': 'inverse-raises', 'regime': regime, **msfx}); continue
+                    if not (torch.isfinite(xi).all() and torch.isfinite(ldi).all() and torch.isfinite(y).all() and torch.isfinite(ld).all()):
+                        ctx.fail('non-finite value returned', case, match={'class': cls, 'symptom': 'non-finite', 'regime': regime, **msfx}); continue
+                    # conditioning-scaled tolerance: exp(|ld|) per row + the declared constants
+                    kap = torch.exp(ld.abs().clamp(max=30)).reshape(-1, *([1] * (x.dim() - 1)))
+                    tol = e.extra.get('tol', 1e-6) * (1 + x.abs()) * kap + _declared(e)
+                    if ((xi - x).abs() > tol).any():
+                        ctx.fail('inverse(forward(x)) differs from x by %.3g' % (xi - x).abs().max().item(), case,
+                                 match={'class': cls, 'symptom': 'roundtrip', 'regime': regime, **msfx}); continue
+                    # the property: the log-abs-det returned by inverse at y is the negative of the one forward returns AT inverse(y)
+                    k3, y2, ld2 = _call(mode, t, xi, c, False)
+                    if k3 != 'ok':
+                        ctx.fail('forward raised %s at inverse(y)' % k3, case, match={'class': cls, 'symptom': 'forward-raises', 'regime': regime, **msfx}); continue
+                    if ((ld2 + ldi).abs() > 1e-5 * (1 + ld2.abs()) * kap.reshape(-1) + 10 * _declared(e)).any():
+                        ctx.fail('inverse log-abs-det is not the negated forward one (%.3g)' % (ld2 + ldi).abs().max().item(), case,
+                                 match={'class': cls, 'symptom': 'ld-not-negated', 'regime': regime, **msfx}); continue
+                    if ((y2 - y).abs() > tol.reshape(y.shape) if tol.shape == y.shape else ((y2 - y).abs() > 1e-6 * (1 + y.abs()).max() * kap.max() + _declared(e))).any():
+                        ctx.fail('forward(inverse(y)) differs from y by %.3g' % (y2 - y).abs().max().item(), case,
+                                 match={'class': cls, 'symptom': 'roundtrip-fi', 'regime': regime, **msfx})
             except Exception as ex:
                 ctx.notes.append('roundtrip oracle on %s raised %r' % (e.name, ex))
         if len(ctx.failing) >= 8 or ctx.elapsed() > budget_s:
